@@ -323,17 +323,20 @@ pub fn exec(a: &Args) -> i32 {
             if let Err(e) = r {
                 return format!("err:{}", e.replace(' ', "_"));
             }
+            // S=straddle marks the transaction during which the memtable rotated (its record is in the old segment)
+            let mut s_mark = "";
             if base == "txn" && ROTATIONS.load(std::sync::atomic::Ordering::SeqCst) != rot_before {
                 straddled = true;
+                s_mark = " S=straddle";
             }
             let h = if straddled { " H=straddle" } else { "" };
             if at.is_none() && base != "crash" {
-                return "ok".into();
+                return format!("ok{s_mark}");
             }
             if !taken {
-                return "img=none".into();
+                return format!("img=none{s_mark}");
             }
-            format!("{}{h}", check_image(&rt, &imgdir.path().join("img"), o))
+            format!("{}{h}{s_mark}", check_image(&rt, &imgdir.path().join("img"), o))
         }));
         match res {
             Ok(s) => writeln!(out, "{s}").unwrap(),
